@@ -147,3 +147,34 @@ func cursorBad(b *Buffer) {
 		b.nextGlyph()
 	}
 }
+
+// the loop lives in a helper: every syllable is flagged
+func flagAll(b *Buffer) {
+	iter, count := b.syllableIterator()
+	for start, end := iter.next(); start < count; start, end = iter.next() {
+		b.unsafeToBreak(start, end)
+	}
+}
+
+func setupHelperGood(b *Buffer) bool {
+	findSyllables(b)
+	flagAll(b)
+	return false
+}
+
+// the helper skips a kind of syllable
+func flagSome(b *Buffer, skip uint8) {
+	iter, count := b.syllableIterator()
+	for start, end := iter.next(); start < count; start, end = iter.next() {
+		if b.Info[start].syllable&0x0F == skip {
+			continue
+		}
+		b.unsafeToBreak(start, end)
+	}
+}
+
+func setupHelperBad(b *Buffer) bool {
+	findSyllables(b)
+	flagSome(b, 3)
+	return false
+}
